@@ -114,7 +114,17 @@ def gen_case(rng):
     cycles = []
     for _ in range(rng.choice([1, 1, 2, 3])):
         n = rng.randint(0, 6)
-        cycles.append({"edits": DL.gen_edits(rng, n, allow=OPS), "how": rng.choice(["zip-path", "zip-io"]), "pretty": rng.random() < 0.3})
+        edits = DL.gen_edits(rng, n, allow=OPS)
+        if rng.random() < 0.25:
+            # themed history: styles merged from a source with pictures, one of the pictures it brought deleted,
+            # the same source merged again (other edits in between)
+            theme = [{"op": "merge_styles", "k": rng.choice([0, 1, 5, 10, 6])}, {"op": "del_part_binary", "k": 2 * rng.randrange(50) + 1}, {"op": "merge_styles", "k": 3 * rng.randrange(50) + rng.choice([1, 2])}]
+            if rng.random() < 0.3:
+                theme.append({"op": "del_part_binary", "k": 2 * rng.randrange(50) + 1})
+            pos = sorted(rng.randrange(len(edits) + 1) for _ in theme)
+            for off, (at, op) in enumerate(zip(pos, theme)):
+                edits.insert(at + off, op)
+        cycles.append({"edits": edits, "how": rng.choice(["zip-path", "zip-io"]), "pretty": rng.random() < 0.3})
     return {"source": DL.gen_source(rng, allow_generated=True), "cycles": cycles}
 
 
@@ -147,7 +157,7 @@ def replay(case):
 
 
 MANIFEST = {
-    "text": "Exploration by runtime monitoring: every zip saved by generated histories (templates, samples, added files incl. identical content twice, deleted parts, image frames, merged styles with pictures, clones, reopen cycles, pretty or not) is audited by an independent package reader: zip listing order and compression, duplicate names, independent parse of the manifest, listed-vs-present in both directions, root media type; a model of added/deleted files is compared with the members. Held = every audited zip satisfied every rule.",
+    "text": "Exploration by runtime monitoring: every zip saved by generated histories (templates, samples, added files incl. identical content twice, deleted parts, image frames, merged styles with pictures (also merge - delete a picture it brought - merge again), clones, reopen cycles, pretty or not) is audited by an independent package reader: zip listing order and compression, duplicate names, independent parse of the manifest, listed-vs-present in both directions, root media type; a model of added/deleted files is compared with the members. Held = every audited zip satisfied every rule.",
     "note": "Trusted: zipfile, lxml; the rule set in DESIGN C04 (directory entries handled the LibreOffice way).",
     "technique": "runtime monitoring: independent package auditor over every produced artefact + model of expected members",
 }
